@@ -65,8 +65,15 @@ class Textgrid:
             return False
 
         isEqual = True
-        isEqual &= my_math.isclose(self.minTimestamp, other.minTimestamp)
-        isEqual &= my_math.isclose(self.maxTimestamp, other.maxTimestamp)
+        for selfTime, otherTime in (
+            (self.minTimestamp, other.minTimestamp),
+            (self.maxTimestamp, other.maxTimestamp),
+        ):
+            # A textgrid has no timestamps until a tier is added or they are set
+            if selfTime is None or otherTime is None:
+                isEqual &= selfTime is otherTime
+            else:
+                isEqual &= my_math.isclose(selfTime, otherTime)
 
         isEqual &= self.tierNames == other.tierNames
         if isEqual:
